@@ -9,7 +9,7 @@
    (Gabriel; Carlsson - de Silva 2010; = generalised rank of Kim - Memoli / Dey - Kim - Memoli).
    Vectors over Z_2 are [list bool] read with [get] (a missing tail is zero), so equality is [veq] (pointwise). *)
 From Coq Require Import ZArith List Bool Arith Sorting.Permutation.
-Require Import C07_Model C07_Gauss C07_Proofs.
+Require Import C07_Model C07_Gauss C07_Proofs C07_Skip C07_Keyed.
 Import ListNotations.
 Open Scope Z_scope.
 
@@ -149,6 +149,26 @@ Theorem C07_ignored_dimensions_filter : forall dimmax bs i x,
 Proof. exact S_index_diagram_spec. Qed.
 Print Assumptions C07_ignored_dimensions_filter.
 
+(* ignore_cycles_above_dim, the cells: the run that skips the cells of dimension > dimmax (and, as identities, the removals
+   of their unknown keys) is the full run with those arrows replaced by identity arrows - for every well-formed keyed
+   sequence (a key is not inserted while bound; boundary keys name present cells of dimension d-1) ... *)
+Theorem C07_skipping_is_replacing_by_identities : forall dimmax ops, 0 <= dimmax -> keyed_ok ops = true ->
+  normalize dimmax ops = skip_high dimmax (normalize (-1) ops).
+Proof. exact normalize_is_skip_high. Qed.
+Print Assumptions C07_skipping_is_replacing_by_identities.
+
+(* ... replacing them does not change the bars of dimension < dimmax of the specification (any normalised sequence) ... *)
+Theorem C07_high_cells_do_not_matter : forall dimmax s k, 0 <= k < dimmax ->
+  bars_of_dim (skip_high dimmax s) k = bars_of_dim s k.
+Proof. exact skip_high_bars. Qed.
+Print Assumptions C07_high_cells_do_not_matter.
+
+(* ... hence what with_storage computes in the dimensions it reports is the restriction of the barcode of the FULL sequence *)
+Theorem C07_ignored_dimensions : forall dimmax ops k, 0 <= k < dimmax -> keyed_ok ops = true ->
+  bars_of_dim (normalize dimmax ops) k = bars_of_dim (normalize (-1) ops) k.
+Proof. exact ignored_dimensions. Qed.
+Print Assumptions C07_ignored_dimensions.
+
 (* skipped cells keep the arrow numbering aligned *)
 Theorem C07_arrow_numbering_aligned : forall dimmax ops, length (normalize dimmax ops) = length ops.
 Proof. exact normalize_length. Qed.
@@ -165,7 +185,3 @@ Definition C07_rank_at_i_is_betti_full : Prop := forall s k i, valid s = true ->
   rfun (length s) (rtab s k) (Z.of_nat i) (Z.of_nat i) = betti s k i.
 (* multiplicities are never negative (true because r counts summands: the literature theorem) *)
 Definition C07_mult_nonneg_full : Prop := forall s k, valid s = true -> mult_nonneg s k = true.
-(* A4: dropping the cells of dimension > dimmax does not change the bars of dimension < dimmax.
-   Missing: a simulation between the two runs of [normalize] (the sweep for dimension k only reads cells of dimension k-1, k, k+1). *)
-Definition C07_ignored_dimensions_full : Prop := forall dimmax ops k, 0 <= k < dimmax ->
-  bars_of_dim (normalize dimmax ops) k = bars_of_dim (normalize (-1) ops) k.
